@@ -206,4 +206,18 @@ def gjk_distance_jolt_iterations(collider1, collider2, tolerance=1e-10, max_dist
         converged = state != GjkState.Unknown
     return iterations
 ''', ["SILENT"]),
+    # C10-r5 repaired: the centre-relative line point gets its own name and every callee receives it
+    M(["C10", "C11", "C12"], "benign-circle-line-point-local", "distance3d/distance/_circle.py", "line_to_circle", "<FUNCTION>", '''
+def line_to_circle(line_point, line_direction, center, radius, normal):
+    line_point_local = line_point - center
+    line_direction_cross_normal = np.cross(line_direction, normal)
+    line_point_cross_normal = np.cross(line_point_local, normal)
+    m0_squared = np.dot(line_direction_cross_normal, line_direction_cross_normal)
+    if m0_squared > 0.0:
+        closest_point_line, closest_point_circle = _case_line_and_normal_not_parallel(line_point_local, line_direction, center, radius, normal, m0_squared, line_direction_cross_normal, line_point_cross_normal)
+    else:
+        closest_point_line, closest_point_circle = _case_line_and_normal_parallel(line_point_local, line_direction, center, radius, normal, line_point_cross_normal)
+    dist = np.linalg.norm(closest_point_line - closest_point_circle)
+    return (dist, closest_point_line, closest_point_circle)
+''', ["SILENT"]),
 ]
